@@ -154,14 +154,14 @@ Proof. vm_compute. auto. Qed.
 (* ---- bounded-exhaustive: every in-domain history of at most 3 calls (the bound of the property
    text) over {built-in names, user names (also before they are registered), an unknown name, "*"}
    satisfies the WHOLE property on the model, or falls into a known-finding class.
-   Row/Raw shape, three user names: 150192 histories. *)
+   Row/Raw shape, three user names: 152593 histories. *)
 Theorem c17_len3_exhaustive_row : forall h,
   In h (extensions 3 alpha_row (builtin_steps (a_builtins alpha_row))) -> spec_run h || hist_known h = true.
 Proof. exact (all_ok_extensions 3 alpha_row _ exh_row). Qed.
 Print Assumptions c17_len3_exhaustive_row.
 
 (* Query shape: three built-ins (named b1, b2, b3 - the model compares names only for equality), two
-   user names: 111715 histories. *)
+   user names: 115811 histories. *)
 Theorem c17_len3_exhaustive_query : forall h,
   In h (extensions 3 alpha_query (builtin_steps (a_builtins alpha_query))) -> spec_run h || hist_known h = true.
 Proof. exact (all_ok_extensions 3 alpha_query _ exh_query). Qed.
@@ -169,7 +169,7 @@ Print Assumptions c17_len3_exhaustive_query.
 
 (* (Create shape, seven built-ins, at most 2 calls: Props_C17_Thorough.v, built in the thorough tier.) *)
 Theorem c17_exhaustive_sizes :
-  count_ext 3 alpha_row (builtin_steps (a_builtins alpha_row)) = 150192%N
-  /\ count_ext 3 alpha_query (builtin_steps (a_builtins alpha_query)) = 111715%N.
+  count_ext 3 alpha_row (builtin_steps (a_builtins alpha_row)) = 152593%N
+  /\ count_ext 3 alpha_query (builtin_steps (a_builtins alpha_query)) = 115811%N.
 Proof. exact (conj exh_row_count exh_query_count). Qed.
 Print Assumptions c17_exhaustive_sizes.
